@@ -56,3 +56,18 @@ def _c16_int_truncation(v, scn, params):
         and v.get("rule") == "divide"
         and v.get("int_nondivisible") is True
     )
+
+
+@matcher("c14_annualized_spiral")
+def _c14_annualized_spiral(v, scn, params):
+    """D12: an annualised variable computes a non-January month by asking for its own
+    January value; with the default spiral budget (max_spiral_loops = 1) that
+    self-read is cut and replaced by the default unless January is already
+    cached.  Confirmed per violation: with a budget of 3 the derived system
+    gives the expected value."""
+    return (
+        v.get("clause") == "C14.derived"
+        and v.get("what") is None
+        and v.get("reads_annualized") is True
+        and v.get("spiral_budget_only") is True
+    )
